@@ -274,4 +274,92 @@ Qed.
 Theorem tree_bad_input_no_effect : forall t ord1 ord2, valid_tree_input mt content = false ->
   ets t ord1 ord2 = mkT t [] [] true.
 Proof. intros t ord1 ord2 V. unfold ets, ensure_tree_state. rewrite V. reflexivity. Qed.
+
+(* ---- the same in the wording of the property, file by file *)
+Lemma tlookup_In : forall (A : Type) (c : list (path * A)) q v, tlookup c q = Some v -> In (q, v) c.
+Proof.
+  induction c as [|[k w] r IH]; intros q v H; cbn in H; [discriminate|].
+  destruct (path_eqb_spec k q); [inversion H; subst; left; reflexivity | right; apply IH; assumption].
+Qed.
+Lemma valid_tree_dir : forall q, valid_tree_input mt content = true -> valid_input mt (content_of content q) = true.
+Proof.
+  intros q V. unfold content_of. destruct (tlookup content q) as [dc|] eqn:L; [|reflexivity].
+  apply tlookup_In in L. unfold valid_tree_input in V. rewrite forallb_forall in V. specialize (V _ L). cbn in V.
+  apply andb_true_iff in V. destruct V as [_ V]. exact V.
+Qed.
+
+(* success, file by file: in every visited directory the files matching the globs are exactly the desired ones (each the old
+   file already in the desired state, or the freshly written one), every other file of the tree is untouched *)
+Theorem tree_success_files : forall t ord1 ord2, NoDup ord1 -> WfC -> (forall q, NoDup (names (foe t q))) ->
+  t_err (ets t ord1 ord2) = false ->
+  forall q n,
+  (mt n = false -> file_at (t_tree (ets t ord1 ord2)) q n = file_at t q n)
+  /\ (In q ord1 -> mt n = true ->
+      match lookup (content_of content q) n with
+      | None => file_at (t_tree (ets t ord1 ord2)) q n = None
+      | Some ds => exists v, file_at (t_tree (ets t ord1 ord2)) q n = Some v /\
+                   ((file_at t q n = Some v /\ in_state out (Some v) ds = true) \/
+                    (v = written um ds /\ in_state out (file_at t q n) ds = false))
+      end).
+Proof.
+  intros t ord1 ord2 ND WC WF E q n.
+  destruct (tree_success t ord1 ord2 ND WC WF E) as [T1 [T2 _]].
+  split.
+  - intro M. unfold file_at. destruct (in_dec (list_eq_dec (list_eq_dec N.eq_dec)) q ord1) as [I | I].
+    + destruct (T1 q I) as [F ER]. rewrite F. unfold R. apply (nonmatching_untouched mt um out _ _ (WF q) (WC q) n M).
+    + rewrite (T2 q I). reflexivity.
+  - intros I M. destruct (T1 q I) as [F ER]. unfold file_at. rewrite F. unfold R in *.
+    destruct (success_exact mt um out (foe t q) (content_of content q) (WF q) (WC q) ER) as [_ [B _]]. apply (B n M).
+Qed.
+
+(* ... and the reported lists are exact: a path is reported changed iff it is a desired file that was not already in the
+   desired state; removed iff it matched the globs, existed and is not desired (paths = directory joined with the name) *)
+Theorem tree_lists_exact : forall t ord1 ord2, NoDup ord1 -> WfC -> (forall q, NoDup (names (foe t q))) ->
+  t_err (ets t ord1 ord2) = false ->
+  (forall x, In x (t_changed (ets t ord1 ord2)) <->
+     exists q n ds, In q ord1 /\ x = join q n /\ lookup (content_of content q) n = Some ds /\ in_state out (file_at t q n) ds = false)
+  /\ (forall x, In x (t_removed (ets t ord1 ord2)) <->
+     exists q n, In q ord1 /\ x = join q n /\ mt n = true /\ lookup (content_of content q) n = None /\ file_at t q n <> None)
+  /\ StronglySorted le (t_changed (ets t ord1 ord2)) /\ StronglySorted le (t_removed (ets t ord1 ord2)).
+Proof.
+  intros t ord1 ord2 ND WC WF E.
+  destruct (tree_success t ord1 ord2 ND WC WF E) as [T1 [_ [TC TR]]].
+  assert (PD : forall q, In q ord1 ->
+     (forall n, In n (r_changed (R t q)) <-> exists ds, lookup (content_of content q) n = Some ds /\ in_state out (file_at t q n) ds = false)
+     /\ (forall n, In n (r_removed (R t q)) <-> mt n = true /\ lookup (content_of content q) n = None /\ file_at t q n <> None)).
+  { intros q I. destruct (T1 q I) as [_ ER]. unfold R in *.
+    destruct (success_exact mt um out (foe t q) (content_of content q) (WF q) (WC q) ER) as [_ [_ [C [D _]]]]. split; assumption. }
+  split; [|split; [|split]].
+  - intro x. rewrite TC, sort_In, in_flat_map. split.
+    + intros [q [I H]]. apply in_map_iff in H. destruct H as [n [Ex Hn]]. apply (proj1 (PD q I)) in Hn. destruct Hn as [ds [L S]].
+      exists q, n, ds. repeat split; auto.
+    + intros [q [n [ds [I [Ex [L S]]]]]]. exists q. split; [assumption|]. apply in_map_iff. exists n. split; [auto|].
+      apply (proj1 (PD q I)). exists ds. tauto.
+  - intro x. rewrite TR, sort_In, in_flat_map. split.
+    + intros [q [I H]]. apply in_map_iff in H. destruct H as [n [Ex Hn]]. apply (proj2 (PD q I)) in Hn.
+      exists q, n. repeat split; try tauto; auto.
+    + intros [q [n [I [Ex H]]]]. exists q. split; [assumption|]. apply in_map_iff. exists n. split; [auto|].
+      apply (proj2 (PD q I)). exact H.
+  - rewrite TC. apply sort_sorted.
+  - rewrite TR. apply sort_sorted.
+Qed.
+
+(* every failure index, file by file: when every entry of the tree is removable (files, symlinks), the call fails exactly
+   when SOME desired entry of SOME visited directory cannot be ensured against the initial tree *)
+Theorem tree_failure_index : forall t ord1 ord2, NoDup ord1 -> WfC -> (forall q, NoDup (names (foe t q))) ->
+  (forall q n v, file_at t q n = Some v -> removable v = true) ->
+  valid_tree_input mt content = true ->
+  (t_err (ets t ord1 ord2) = true <->
+   exists q n ds, In q ord1 /\ In (n, ds) (content_of content q) /\ efs um out (file_at t q n) ds = FErr).
+Proof.
+  intros t ord1 ord2 ND WC WF REM V. rewrite (tree_failure_points t ord1 ord2 ND WC WF V). split.
+  - intros [q [I ER]]. unfold R in ER.
+    pose proof (err_is_wfail mt um out (foe t q) (content_of content q) (WF q) (WC q) (REM q) ER (valid_tree_dir q V)) as W.
+    apply (failure_points mt um out _ _ (WF q) (WC q) (valid_tree_dir q V)) in W. destruct W as [n [ds [H1 H2]]].
+    exists q, n, ds. tauto.
+  - intros [q [n [ds [I [H1 H2]]]]]. exists q. split; [assumption|]. unfold R.
+    assert (W : r_wfail (eds mt um out (foe t q) (content_of content q)) = true).
+    { apply (failure_points mt um out _ _ (WF q) (WC q) (valid_tree_dir q V)). exists n, ds. tauto. }
+    destruct (fail_closed mt um out _ _ (WF q) (WC q) W) as [ER _]. exact ER.
+Qed.
 End Tree.
